@@ -29,7 +29,7 @@ ASSUMPTIONS = [
     "cycle-report and victim checks are applied only while the history is explained without any defect switch",
 ]
 MIN_NONTRIVIAL_FRACTION = 0.1
-RULE += " Added after the seeded rounds: " + 'Additionally a memoised breadth-first exploration of the whole state space of 2 operations x 2 resources (depth 5/7) and 3 operations x 2 resources with preemption (depth 4/6), and histories in which one operation is blocked on two different owners.'
+RULE += " Added after the seeded rounds: " + 'Additionally a memoised breadth-first exploration of the whole state space of 2 operations x 2 resources (depth 7/8 - the memoised state space of about 19000 states is exhausted before that) and 3 operations x 2 resources with preemption (depth 4/6), and histories in which one operation is blocked on two different owners.'
 REQUIRED_LABELS = {"ref-cycle": 0.01}
 EXHAUSTIVE_NOTE = {"quick": "all acquire-only histories of depth 1..4 over 3 ops x 3 non-preemptable resources (9+81+729+6561 = 7380), complete",
                    "thorough": "all acquire-only histories of depth 1..6 over 3 ops x 3 non-preemptable resources (597870), complete"}
@@ -74,7 +74,7 @@ def strategy(tier):
 
 def enumerate_cases(tier):
     # state-space exploration of the full alphabet, one shard per first operation
-    for n_ops, res, bdepth in ((2, [["r1", False], ["r2", False]], 7 if tier == "thorough" else 5),
+    for n_ops, res, bdepth in ((2, [["r1", False], ["r2", False]], 8 if tier == "thorough" else 7),
                                (3, [["r1", True], ["r2", False]], 6 if tier == "thorough" else 4)):
         for first in _alphabet(n_ops, len(res)):
             yield {"kind": "bfs", "ops_n": n_ops, "res": res, "prio": [5, 1, 9], "strategy": "priority", "prefix": [first], "depth": bdepth}
